@@ -3,16 +3,17 @@
 report a violation: seeded/matrix.json.  Evidence written during these runs goes to a scratch directory."""
 import json, os, re, subprocess, sys, glob
 import concurrent.futures as cf
+ROOT = os.path.dirname(os.path.dirname(os.path.abspath(__file__)))
 ALL = ["C%02d" % i for i in range(1, 21)]
 only = sys.argv[1:]
 st = subprocess.run(["git", "-C", "/repo", "status", "--porcelain"], capture_output=True, text=True).stdout.strip()
 if st:
     print("refusing: /repo not clean"); sys.exit(3)
 mat = {}
-mpath = "/verif/seeded/matrix.json"
+mpath = ROOT + "/seeded/matrix.json"
 if os.path.exists(mpath) and only:
     mat = json.load(open(mpath))
-for d in sorted(glob.glob("/verif/seeded/C*-m*")):
+for d in sorted(glob.glob(ROOT + "/seeded/C*-m*")):
     name = os.path.basename(d)
     if only and name not in only and name.split("-")[0] not in only and not any(o.startswith("re:") and re.search(o[3:], name) for o in only):
         continue
@@ -24,7 +25,7 @@ for d in sorted(glob.glob("/verif/seeded/C*-m*")):
     row = {}
     try:
         def one(pid):
-            return pid, subprocess.run(["/verif/check", pid, "quick"], capture_output=True, text=True, cwd="/verif",
+            return pid, subprocess.run([ROOT + "/check", pid, "quick"], capture_output=True, text=True, cwd=ROOT,
                                        env=dict(os.environ, PCV_EVIDENCE_DIR="/tmp/pcv-evidence-scratch"))
         first = [one(ALL[0])]          # builds the facts for this tree once; the others reuse the cache
         with cf.ThreadPoolExecutor(10) as ex:
